@@ -1,28 +1,58 @@
 """C10 Stored btrees behave as ordered maps (db19/index/btree)
 
-Mutation testing (scratch worktree /tmp/ixs-mut, VERIF_REPO, quick tier, seed 1; "tests" = go test
-./db19/index/btree/... with the mutant):
+Node sizes are OBSERVED: after every successful bulk build (Builder) and MergeAndSave the driver walks
+the stored nodes of the new version in the stor bytes and logs a Nodes event (largest node, largest
+fan-out, keys found, every node above the limit with a description); TraceOrdMap!TrNodes requires
+maxsz <= 8192, maxfan <= split and the key count of the model. Bulk builds over long-key universes
+(lbuild: runs of keys sharing 20..300 byte prefixes that the next run shortens, adjacent near-4096-byte
+keys, 40..200 byte ragged keys, 100 x ~75 byte keys at the Builder's fast-path limit, edge inserts
+that shorten a leaf's prefix) reach the byte limit of a leaf before the count limit.
+
+Known findings are matched by SHAPE AND OPERATION, never by a panic text alone (classify()):
+  node-too-large-near-max-keys  only a node stored by MergeAndSave whose bytes sit in >= 2 keys/separators
+                                of >= 1000 bytes (fits without them), or a leaf that wastes a prefix its
+                                keys share (fits with it) - what the count-based split leaves behind; a
+                                'too large (write)' panic only when such a node was seen before in the
+                                scenario or is seen when the batch is re-applied entry by entry
+  builder-leaf-header-4-over    only a Builder leaf of exactly 100 keys, no wasted prefix, <= 8196 bytes
+  Every other node above 8192 bytes - in particular ANY other oversized node after a bulk build - is a
+  VIOLATION. A known finding no longer ends the validation of its scenario (validate()).
+
+Mutation testing (scratch worktree, VERIF_REPO, quick tier, seed 1; "tests" = go test ./db19/index/btree/...
+with the mutant):
   caught by this check, package tests green:
     revert-f13             upper clamp of rangeFrac removed (= the original defect F13)  VIOLATION at a Frac event
     search-prefix-le       leafNode.search: `key <= prefix` => before all entries        VIOLATION at a State event (Lookup of the
                            (a key equal to the node's shared prefix is not found)        key that equals the leaf prefix returns 0)
     check-callback-prefix  Check(fn(key, off)) passes the suffix without the leaf prefix  VIOLATION at a ChkKeys event
     builder-count-dup      Builder.Add counts a refused duplicate                        VIOLATION at a State event (Check() panics)
+    builder-size-stale-prefix (seeded/C10-builder-size-stale-prefix-r2) leafBuilder.tryAdd VIOLATION at the Nodes event of a bulk
+                           sizes the leaf with the prefix BEFORE adding the key           build (leaves of 15735 and 22650 bytes)
+    tryadd-size            leafBuilder.tryAdd allows 200 bytes more                       VIOLATION at the Nodes event of a bulk
+                           (round 1: hidden behind the known finding, matched by text)    build (leaf of 8307 bytes)
+    fieldslimit-plus-50    Builder fast-path limit 50 bytes higher                        VIOLATION at the Nodes event of a bulk
+                                                                                          build (100-key leaves of 8246 / 8215 bytes)
+    merge-split-size-slack shouldSplit: size > maxNodeSize+64                             VIOLATION at a Merge event: 'leafNode too
+                           (round 1: would have been hidden by the text match)            large (write)' and NO oversized node is stored
+                                                                                          when the batch is re-applied entry by entry
   not caught:
     droppos        pos fix-up after tree.delete in dropLeaf removed    equivalent: pos is recomputed by descendToLeaf before use
     builder-sep    separator one byte longer than necessary            equivalent: still a valid separator
-    tryadd-size    leafBuilder.tryAdd allows 200 bytes more            only shows as 'leafNode too large (write)', which is the
-                                                                       registered known finding (node-too-large-near-max-keys)
+  caught by this check but killed by the package's own tests already:
+    merge-split-ignores-size (shouldSplit without the size test: VIOLATION like merge-split-size-slack;
+    TestMergeInsertLargeKeys1 fails), treebuilder-size-check-relaxed (Builder.addTree: newSize > maxNodeSize+4096:
+    VIOLATION at a Build event of lbuild/nearmax, 'treeNode too large (finishTo)'; TestBuilderLargeKeys2 fails)
   killed by the package's own tests already: sep-short (separator one byte short), contains-le (key == limit stays in
     the left leaf), count-drift (update counted), prev-end, prefix-cap (256), rightedge, limit-inherit,
     insert-prefix-path, next-rewound-range, seek-range, range-norange, single-key-prefix, leaf-delete-2to1,
-    gte-short-bound, builder-dup-prev, inplace-update (update without path copy), frac-no-lower-clamp
+    gte-short-bound, builder-dup-prev, inplace-update (update without path copy), frac-no-lower-clamp,
+    leaf-split-lopsided (leafNode.splitTo at nkeys-1; TestLeafNode_split; not caught by this check)
 """
 
 META = {
  "engine": "tla-ordmap",
- "text": "TLC exhausts OrdMap.tla (every bulk-built tree over 4-5 keys, every valid change batch, two consecutive batches, every cursor walk with every range) for count bookkeeping, ordered duplicate-free iteration both ways, sequential batch application = declarative meaning, Next/Prev/Seek meaning, and BTreeNodes.tla (merge.go's path-copying merge with limits, splits, empty-node removal and root popping transcribed over an append-only store: every valid batch sequence over 4-6 keys, split factors 2-3, both separator extremes) for content = MergeBatch, node ordering/separator/size invariants, exact count and an untouched old version; the REAL btree (Builder incl. refused duplicates, MergeAndSave through real ixbufs, Lookup of the whole key universe, forward/backward iteration, ranged iterators with Seek, skip-scan iterators over composite keys, Check() incl. callback, old versions after path copying, header Write/Read round trip, RangeFrac) is driven with seeded random and boundary-biased batches over nasty keys and every call is replayed through the same operators by TLC trace validation",
- "note": "trusts TLC/CommunityModules Json, the driver's rank->key table (asserted strictly monotone) and offset-id table; small-scope: exhaustive part 4-5 keys, conformance part up to ~2100 keys, split factors 2..200; RangeFrac only checked for 0<=frac<=1 and finiteness (it is an estimate)",
+ "text": "TLC exhausts OrdMap.tla (every bulk-built tree over 4-5 keys, every valid change batch, two consecutive batches, every cursor walk with every range) for count bookkeeping, ordered duplicate-free iteration both ways, sequential batch application = declarative meaning, Next/Prev/Seek meaning, and BTreeNodes.tla (merge.go's path-copying merge with limits, splits, empty-node removal and root popping transcribed over an append-only store: every valid batch sequence over 4-6 keys, split factors 2-3, both separator extremes) for content = MergeBatch, node ordering/separator/size invariants, exact count and an untouched old version; the REAL btree (Builder incl. refused duplicates, MergeAndSave through real ixbufs, Lookup of the whole key universe, forward/backward iteration, ranged iterators with Seek, skip-scan iterators over composite keys, Check() incl. callback, old versions after path copying, header Write/Read round trip, RangeFrac; the size and fan-out of every stored node after each bulk build and merge, read from the stor bytes) is driven with seeded random and boundary-biased batches over nasty keys and every call is replayed through the same operators by TLC trace validation",
+ "note": "trusts TLC/CommunityModules Json, the driver's rank->key table (asserted strictly monotone) and offset-id table, the driver's reader of the stored node layout; small-scope: exhaustive part 4-5 keys, conformance part up to ~2100 keys, split factors 2..200; RangeFrac only checked for 0<=frac<=1 and finiteness (it is an estimate)",
  "technique": "TLA+ model checking (TLC) + trace validation of logged calls on the real btree",
 }
 
